@@ -1,6 +1,7 @@
 package packagerender
 
 import (
+	"fmt"
 	"sort"
 
 	corev1alpha1 "package-operator.run/apis/core/v1alpha1"
@@ -64,10 +65,10 @@ func (c phaseCollector) AddObjects(objs ...unstructured.Unstructured) {
 			annotations = nil
 		}
 
-		// Any error should have been detected by the validation stage.
+		// Any error has been detected when the objects were parsed (parseObjects).
 		conditionMapping, err := parseConditionMapAnnotation(&objs[i])
 		if err != nil {
-			panic(err)
+			panic(fmt.Errorf("condition-map annotation was accepted when parsing objects but is invalid: %w", err))
 		}
 
 		object.SetAnnotations(annotations)
